@@ -108,7 +108,11 @@ def run(ctx):
             sn = v.node(sites[0].call)
             # guarded by a test on the namespace / owning schema, and followed by a return that carries the issues
             g = None
-            for cnd in v.conds(lambda t: mentions(t, "schema_namespace") or mentions(t, "specific_schema")):
+            from sa.dataflow import ReachingDefs as _RD, depends_on as _dep
+            rdm = _RD(m)
+            for cnd in v.conds(lambda t: _dep(rdm, t, t, lambda x: (isinstance(x, ast.Name) and x.id == "schema_namespace") or (
+                    isinstance(x, ast.Call) and call_name(x) == "schema_for_namespace") or (
+                    isinstance(x, ast.Attribute) and x.attr == "_namespace"))):
                 for lab in (True, False):
                     if v.edge_guards(cnd, lab, sn):
                         g = (cnd, lab)
@@ -178,8 +182,9 @@ def run(ctx):
     appends = [n for (n, c) in vp.calls(lambda c: isinstance(c.func, ast.Attribute) and c.func.attr == "append")]
     ctx.floor("R13.3", "appends in parse_version_list", len(appends), 1)
     for a in appends:
-        g = vp.guard_for(a, lambda t: isinstance(t, ast.Compare) and any(isinstance(o, ast.In) for o in t.ops)
-                         and mentions(t, "version"), want_leave=("raise",))
+        recv = [norm(c.func.value) for c in vp.node_calls(a) if isinstance(c.func, ast.Attribute) and c.func.attr == "append"]
+        g = vp.guard_for(a, lambda t, recv=recv: isinstance(t, ast.Compare) and any(isinstance(o, ast.In) for o in t.ops)
+                         and norm(t.comparators[0]) in recv, want_leave=("raise",))
         ctx.check(g is not None, "R13.3", pvl.qualname, a.ast, loc(pvl, a.ast),
                   "a version is recorded without the 'already listed under this prefix' test and its raise",
                   desc="duplicate library refused before it is recorded")
